@@ -19,16 +19,25 @@
    object (the library never constructs or destroys those explicitly), so
    [alloc] yields [Alive None] cells for them and [Raw] cells otherwise.
 
-   Range loops (std::copy, std::fill, std::move, uninitialized_copy/move,
-   destroy_range, move_backward) are folds of the per-cell action over the
-   range; a move of a range inside one block reads (and marks moved-from) all
-   source cells and then writes all destination cells -- for the calls made by
-   the library each source cell is read before it is written (disjoint ranges,
-   or std::move_backward with destination above source), so this is the
-   element-by-element result.
+   Range loops are ELEMENT-WISE, in the direction the standard algorithm uses:
+     write_range   std::copy / std::fill / uninitialized_copy / destroy_range
+                   with values that do not live in the vector: cell b, b+1, ...
+     xfer          std::copy / std::move / uninitialized_copy / uninitialized_move
+                   from one block into another one (another vector, a new
+                   heap block): element 0, 1, ... -- read, write, (move: leave
+                   the source moved-from)
+     move_fwd      std::move / uninitialized_move inside one block, first to last
+     move_bwd      std::move_backward inside one block, last to first
+   so overlapping ranges behave as the real loops do ("*d = std::move(*s)"
+   with d == s leaves a moved-from object).
+   The range operations of insert(i, b, e) are not written here: they are the
+   lists that translate/smallvec_ops.py extracts from small_vector.tcc
+   (Gen/SmallVecOps.v, regenerated on every check run) and that [interp_rcalls]
+   executes.
 
    No proofs in this file. *)
 From Coq Require Import ZArith List Bool Arith.
+From VV Require Import SmallVec.SmallVecAst Gen.SmallVecOps.
 Import ListNotations.
 
 Inductive err :=
@@ -122,11 +131,60 @@ Section Model.
       end
     end.
 
-  (* move out of the cells [b, b + n): read them, leave moved-from objects *)
-  Definition moveout_range (b n : nat) (blk : list cell) : res (list V * list cell) :=
-    vs <- read_range b n blk ;;
-    blk' <- write_range c_assign b (map mv vs) blk ;;
-    Ok (vs, blk').
+  Definition get (i : nat) (blk : list cell) : res cell :=
+    match nth_error blk i with Some c => Ok c | None => Err BadRange end.
+
+  Fixpoint set (i : nat) (c : cell) (blk : list cell) {struct blk} : res (list cell) :=
+    match blk with
+    | [] => Err BadRange
+    | x :: r =>
+      match i with
+      | O => Ok (c :: r)
+      | Datatypes.S i' => r' <- set i' c r ;; Ok (x :: r')
+      end
+    end.
+
+  (* "*d = std::move(*s)" (w = c_assign) / "::new (d) T(std::move(*s))"
+     (w = c_construct) inside one block: read *s, write *d, *s is left
+     moved-from (so s = d ends with a moved-from object) *)
+  Definition move1 (w : cell -> V -> res cell) (s d : nat) (blk : list cell) : res (list cell) :=
+    c <- get s blk ;;
+    v <- c_read c ;;
+    dc <- get d blk ;;
+    dc' <- w dc v ;;
+    blk1 <- set d dc' blk ;;
+    set s (AS (mv v)) blk1.
+
+  (* first to last: std::move(first, last, d_first), uninitialized_move *)
+  Fixpoint move_fwd (w : cell -> V -> res cell) (s d n : nat) (blk : list cell) : res (list cell) :=
+    match n with
+    | O => Ok blk
+    | Datatypes.S n' => blk' <- move1 w s d blk ;; move_fwd w (Datatypes.S s) (Datatypes.S d) n' blk'
+    end.
+
+  (* last to first: std::move_backward(first, last, d_last), d = d_last - n *)
+  Fixpoint move_bwd (w : cell -> V -> res cell) (s d n : nat) (blk : list cell) : res (list cell) :=
+    match n with
+    | O => Ok blk
+    | Datatypes.S n' => blk' <- move1 w (s + n') (d + n') blk ;; move_bwd w s d n' blk'
+    end.
+
+  (* n elements from the front of block src to the front of another block dst,
+     element by element; moving = true leaves the sources moved-from *)
+  Fixpoint xfer (w : cell -> V -> res cell) (moving : bool) (n : nat) (src dst : list cell)
+    : res (list cell * list cell) :=
+    match n with
+    | O => Ok (src, dst)
+    | Datatypes.S n' =>
+      match src, dst with
+      | c :: src', d :: dst' =>
+        v <- c_read c ;;
+        d' <- w d v ;;
+        '(s2, d2) <- xfer w moving n' src' dst' ;;
+        Ok ((if moving then AS (mv v) else c) :: s2, d' :: d2)
+      | _, _ => Err BadRange
+      end
+    end.
 
   (* destroy_range(b, e): "for (; b != e; ++b) b->~T()".  With e < b the loop
      runs off the end of the block. *)
@@ -168,8 +226,8 @@ Section Model.
 
   (* grow(n) *)
   Definition grow (n : nat) (s : sv) : res sv :=
-    '(vs, d') <- moveout_range 0 (size s) (data s) ;;
-    new' <- write_range c_construct 0 vs (alloc n) ;;
+    (* vita::uninitialized_move(begin(), end(), new_data) *)
+    '(d', new') <- xfer c_construct true (size s) (data s) (alloc n) ;;
     s1 <- (if is_heap s then free_heap_memory (set_data s d' (size s)) else Ok (set_data s d' (size s))) ;;
     Ok (mkSv (Some new') (loc s1) (size s)).
 
@@ -207,14 +265,20 @@ Section Model.
 
   (* small_vector(const small_vector &) *)
   Definition copy_ctor (rhs : sv) : res sv :=
-    vs <- read_range 0 (size rhs) (data rhs) ;; build vs.
+    let n := size rhs in
+    if n <=? S then
+      (* std::copy(v.begin(), v.end(), begin()) *)
+      '(_, l) <- xfer c_assign false n (data rhs) fresh_local ;; Ok (mkSv None l n)
+    else
+      (* vita::uninitialized_copy(v.begin(), v.end(), data_) *)
+      '(_, h) <- xfer c_construct false n (data rhs) (alloc n) ;; Ok (mkSv (Some h) fresh_local n).
 
   (* small_vector(small_vector &&): returns (new object, rhs afterwards) *)
   Definition move_ctor (rhs : sv) : res (sv * sv) :=
     let n := size rhs in
     if n <=? S then
-      '(vs, d') <- moveout_range 0 n (data rhs) ;;
-      l <- write_range c_assign 0 vs fresh_local ;;
+      (* std::move(rhs.begin(), rhs.end(), begin()) *)
+      '(d', l) <- xfer c_assign true n (data rhs) fresh_local ;;
       Ok (mkSv None l n, set_data rhs d' n)
     else
       match heap rhs with
@@ -228,16 +292,16 @@ Section Model.
     let n := size rhs in
     if capacity this <? n then
       this1 <- (if is_heap this then free_heap_memory this else Ok this) ;;
-      vs <- read_range 0 n (data rhs) ;;
-      h <- write_range c_construct 0 vs (alloc n) ;;
+      (* vita::uninitialized_copy(rhs.begin(), rhs.end(), begin()) *)
+      '(_, h) <- xfer c_construct false n (data rhs) (alloc n) ;;
       Ok (mkSv (Some h) (loc this1) n)
     else
       d1 <- (if negb triv && is_heap this then
                if n <? size this then destroy_range n (size this) (data this)
                else write_range c_construct (size this) (repeat dflt (n - size this)) (data this)
              else Ok (data this)) ;;
-      vs <- read_range 0 n (data rhs) ;;
-      d2 <- write_range c_assign 0 vs d1 ;;
+      (* std::copy(rhs.begin(), rhs.end(), begin()) *)
+      '(_, d2) <- xfer c_assign false n (data rhs) d1 ;;
       Ok (set_data this d2 n).
 
   (* operator=(small_vector &&), this != &rhs: (this, rhs) afterwards *)
@@ -245,8 +309,8 @@ Section Model.
     let n := size rhs in
     this1 <- (if is_heap this then free_heap_memory this else Ok this) ;;
     if n <=? S then
-      '(vs, d') <- moveout_range 0 n (data rhs) ;;
-      l <- write_range c_assign 0 vs (loc this1) ;;
+      (* std::move(rhs.begin(), rhs.end(), begin()) *)
+      '(d', l) <- xfer c_assign true n (data rhs) (loc this1) ;;
       Ok (mkSv None l n, set_data rhs d' n)
     else
       match heap rhs with
@@ -291,48 +355,89 @@ Section Model.
     d <- write_range (put s1) (size s1) vs (data s1) ;;
     Ok (set_data s1 d (size s1 + n), old_size).
 
-  (* insert, first case (at least n elements follow the insertion point), on
-     the block: w is "assign" for the local storage, "placement-new" otherwise *)
-  Definition insert_shift (w : cell -> V -> res cell) (pos n sz : nat) (vs : list V)
-             (blk : list cell) : res (list cell) :=
-    (* append(move_iterator(end() - n), move_iterator(end())) *)
-    '(ms, d1) <- moveout_range (sz - n) n blk ;;
-    d2 <- write_range w sz ms d1 ;;
-    (* std::move_backward(i, old_end - n, old_end) *)
-    '(bs, d3) <- moveout_range pos (sz - n - pos) d2 ;;
-    d4 <- write_range c_assign (pos + n) bs d3 ;;
-    (* std::copy(b, e, i) *)
-    write_range c_assign pos vs d4.
+  (* ---- insert(i, b, e): interpreter of the extracted range operations ---- *)
+  (* environment of one branch: insertion index, end() at the start of the
+     branch, number of inserted elements *)
+  Record ienv := mkIenv { e_pos : nat; e_old_end : nat; e_n : nat }.
 
-  (* insert, second case (more elements inserted than follow the insertion
-     point); w1 writes the moved tail, w2 the non-overwritten middle part *)
-  Definition insert_over (w1 w2 : cell -> V -> res cell) (pos n sz : nat) (vs : list V)
-             (blk : list cell) : res (list cell) :=
-    let ow := sz - pos in
-    (* move [i, old_end) to the end of the enlarged vector *)
-    '(ts, d1) <- moveout_range pos ow blk ;;
-    d2 <- write_range w1 (sz + n - ow) ts d1 ;;
-    (* replace the overwritten part *)
-    d3 <- write_range c_assign pos (firstn ow vs) d2 ;;
-    (* the non-overwritten middle part *)
-    write_range w2 sz (skipn ow vs) d3.
+  Definition eval_num (en : ienv) (k : num) : nat :=
+    match k with Nn => e_n en | Noverwritten => e_old_end en - e_pos en end.
 
-  (* insert(i, b, e), range not aliasing the vector  -- repaired *)
-  Definition insert (pos : nat) (vs : list V) (s : sv) : res (sv * nat) :=
+  Fixpoint eval_ptr (en : ienv) (cur_end : nat) (p : ptr) : nat :=
+    match p with
+    | PI => e_pos en
+    | PEnd => cur_end
+    | POldEnd => e_old_end en
+    | PPlus q k => eval_ptr en cur_end q + eval_num en k
+    | PMinus q k => eval_ptr en cur_end q - eval_num en k
+    end.
+
+  (* by_storage: the writer chosen by local_storage_used() *)
+  Definition sel (by_storage : cell -> V -> res cell) (w : wsel) : cell -> V -> res cell :=
+    match w with WAssign => c_assign | WConstruct => c_construct | WByStorage => by_storage end.
+
+  (* state: block, current end() index, what is left of the inserted range *)
+  Definition interp_rcall (by_storage : cell -> V -> res cell) (en : ienv) (c : rcall)
+             (st : list cell * nat * list V) : res (list cell * nat * list V) :=
+    let '(blk, cur, rem) := st in
+    match c with
+    | RAppendMoved b e =>
+      (* append of a moved range of the vector itself: the capacity has been
+         reserved; assign (local storage) or construct behind end() *)
+      let sb := eval_ptr en cur b in
+      let cnt := eval_ptr en cur e - sb in
+      blk' <- move_fwd by_storage sb cur cnt blk ;; Ok (blk', cur + cnt, rem)
+    | RMove Fwd w b e dst =>
+      let sb := eval_ptr en cur b in
+      blk' <- move_fwd (sel by_storage w) sb (eval_ptr en cur dst) (eval_ptr en cur e - sb) blk ;;
+      Ok (blk', cur, rem)
+    | RMove Bwd w b e dst =>
+      let sb := eval_ptr en cur b in
+      let cnt := eval_ptr en cur e - sb in
+      blk' <- move_bwd (sel by_storage w) sb (eval_ptr en cur dst - cnt) cnt blk ;;
+      Ok (blk', cur, rem)
+    | RCopyIn w dst =>
+      blk' <- write_range (sel by_storage w) (eval_ptr en cur dst) rem blk ;; Ok (blk', cur, [])
+    | ROverwrite =>
+      let ow := eval_num en Noverwritten in
+      blk' <- write_range c_assign (e_pos en) (firstn ow rem) blk ;; Ok (blk', cur, skipn ow rem)
+    | RSizeAdd => Ok (blk, cur + e_n en, rem)
+    end.
+
+  Fixpoint interp_rcalls (by_storage : cell -> V -> res cell) (en : ienv) (cs : list rcall)
+           (st : list cell * nat * list V) : res (list cell * nat * list V) :=
+    match cs with
+    | [] => Ok st
+    | c :: cs' => st' <- interp_rcall by_storage en c st ;; interp_rcalls by_storage en cs' st'
+    end.
+
+  Definition has_guard (g : iguard) (gs : list iguard) : bool :=
+    existsb (fun x => match x, g with
+                      | IGAppendAtEnd, IGAppendAtEnd => true
+                      | IGReturnIfEmpty, IGReturnIfEmpty => true
+                      | _, _ => false end) gs.
+
+  (* insert(i, b, e) for a given extracted shape; range not aliasing the vector *)
+  Definition insert_with (sh : insert_shape) (by_storage_of : sv -> cell -> V -> res cell)
+             (append_f : list V -> sv -> res (sv * nat))
+             (pos : nat) (vs : list V) (s : sv) : res (sv * nat) :=
     if size s <? pos then Err BadRange
-    else if pos =? size s then append vs s
+    else if has_guard IGAppendAtEnd (ins_guards sh) && (pos =? size s) then append_f vs s
     else
       let n := length vs in
-      if n =? 0 then Ok (s, pos)
+      if has_guard IGReturnIfEmpty (ins_guards sh) && (n =? 0) then Ok (s, pos)
       else
         s1 <- reserve (size s + n) s ;;
         let sz := size s1 in
-        if pos + n <=? sz then
-          d <- insert_shift (put s1) pos n sz vs (data s1) ;;
-          Ok (set_data s1 d (sz + n), pos)
-        else
-          d <- insert_over (put s1) (put s1) pos n sz vs (data s1) ;;
-          Ok (set_data s1 d (sz + n), pos).
+        let en := mkIenv pos sz n in
+        let simple := match ins_cond sh with ICondTailAtLeastN => pos + n <=? sz | ICondOther => false end in
+        '(d, cur, _) <- interp_rcalls (by_storage_of s1) en
+                          (if simple then ins_simple sh else ins_over sh) (data s1, sz, vs) ;;
+        Ok (set_data s1 d cur, pos).
+
+  (* insert(i, b, e) of the current source  -- repaired *)
+  Definition insert (pos : nat) (vs : list V) (s : sv) : res (sv * nat) :=
+    insert_with insert_shape_gen put append pos vs s.
 
   (* resize(n)  -- repaired *)
   Definition resize (n : nat) (s : sv) : res sv :=
@@ -627,25 +732,17 @@ Section Pinned.
   Definition append_pinned (vs : list V) (s : sv) : res (sv * nat) :=
     '(s', _) <- append P vs s ;; Ok (s', size s').
 
+  (* insert() as it was: no early exit for an empty range, always
+     placement-new in the second branch *)
+  Definition insert_shape_pinned : insert_shape :=
+    mkInsertShape
+      [IGAppendAtEnd]
+      ICondTailAtLeastN
+      [RAppendMoved (PMinus PEnd Nn) PEnd; RMove Bwd WAssign PI (PMinus POldEnd Nn) POldEnd; RCopyIn WAssign PI]
+      [RSizeAdd; RMove Fwd WConstruct PI POldEnd (PMinus PEnd Noverwritten); ROverwrite; RCopyIn WConstruct POldEnd].
+
   Definition insert_pinned (pos : nat) (vs : list V) (s : sv) : res (sv * nat) :=
-    if size s <? pos then Err BadRange
-    else if pos =? size s then append_pinned vs s
-    else
-      let n := length vs in
-      s1 <- reserve P (size s + n) s ;;
-      let sz := size s1 in
-      if n =? 0 then
-        (* std::move_backward(i, old_end, old_end): every element of the tail is
-           move-assigned onto itself, which leaves a moved-from object *)
-        '(_, d) <- moveout_range P pos (sz - pos) (data s1) ;;
-        Ok (set_data s1 d sz, pos)
-      else if pos + n <=? sz then
-        d <- insert_shift P (put P s1) pos n sz vs (data s1) ;;
-        Ok (set_data s1 d (sz + n), pos)
-      else
-        (* always placement-new, also over the live objects of the local storage *)
-        d <- insert_over P (c_construct P) (c_construct P) pos n sz vs (data s1) ;;
-        Ok (set_data s1 d (sz + n), pos).
+    insert_with P insert_shape_pinned (put P) append_pinned pos vs s.
 
   Definition resize_pinned (n : nat) (s : sv) : res sv :=
     if n <=? capacity s then
